@@ -601,3 +601,7 @@ Lemma titan_cstep_connected_tie : forall soc db cap dw url content b s,
   encode (url ++ [13; 10]%N) = Some b ->
   gen_titan_connection_made (gen_titan_send_request url content) soc s = cstep [b; content] soc db cap dw s CConnected.
 Proof. intros. apply titan_connection_made_gen. intro s0. apply titan_send_request_tie. assumption. Qed.
+
+(* the response-body cap the client enforces (protocol/constants.py MAX_RESPONSE_BODY_SIZE): 10 MiB *)
+Lemma max_response_body_value : gen_MAX_RESPONSE_BODY_SIZE = 10485760%N.
+Proof. reflexivity. Qed.
